@@ -1,4 +1,5 @@
 import Spake2Verif.Proofs.PropAuxA
+import Spake2Verif.Proofs.ProtoShapeTie
 /-!
 # C06 — Side-confusion and reflection are always refused
 
@@ -464,5 +465,14 @@ example :
       (65 :: ((Inst.new (G := toyG) .S [1] [7] [] toyParams ⟨[4]⟩).start.2.toOption.getD []).drop 1)).2
         = .error .OffSides := by
   constructor <;> decide +kernel
+
+/-- Tie A: the side checks reasoned about above are those of the *source* -- `extractMessage` is the
+translation of the two `_extract_message` methods (every message), with the class side constants -/
+theorem side_checks_are_the_source :
+    (∀ s : Side, s ≠ .S → extractMessage s = Spake2Model.Gen.Proto.extract_asym s.byte) ∧
+    extractMessage .S = Spake2Model.Gen.Proto.extract_sym ∧
+    (Side.byte .A = Spake2Model.Gen.Proto.class_side_A ∧ Side.byte .B = Spake2Model.Gen.Proto.class_side_B ∧
+      Side.byte .S = Spake2Model.Gen.Proto.class_side_S) :=
+  ⟨ProtoShapeTie.extract_asym_tie, ProtoShapeTie.extract_sym_tie, ProtoShapeTie.class_sides_tie⟩
 
 end Spake2Verif.C06
